@@ -24,6 +24,9 @@ CHECKS = {
  "C05": dict(engine="adjust", tech="TLA+ spec (Adjust updates) model-checked by TLC; scenario replay; TLC trace validation of returned update lists",
    text="The update lists returned by Create/Update/StopContainer are compared with the specification's collected updates: one entry per target, exact field maps, own entry last (placeholder iff unchanged), self-update fails, ignore-failure conflicts are dropped entirely (labels C05-updates, C05-selfupdate).",
    ref="5/C05"),
+ "C13": dict(engine="oci", tech="TLA+ spec (Container.OciApply) with theorems SetWins/Removes/Frame checked by TLC; TLC-enumerated + random (spec, adjustment) pairs replayed on the real generator x R repetitions; TLC trace validation (Trace_Oci)",
+   text="OciApply is the specification of Generator.Adjust; TLC checks on every enumerated pair that a set wins over a removal in any list order, that removals take effect and that nothing unnamed changes; every pair is applied 16 (quick) / 64 (thorough) times by the real generator on fresh copies and each result must equal OciApply, the rest of the spec must be unchanged, mounts must come parents-first and all repetitions must be identical (labels C13-result, C13-frame, C13-mount-order, C13-determinism).",
+   ref="5/C13", note="Trusted base: TLC; harness/abs OCI projection; device cgroup allow rules added with devices are not compared; rshared/rslave mount options (host mountinfo) are outside the domain."),
 }
 NA = {
  "C12": "byte-level encode/decode fidelity of two generated protobuf codecs has no state or transition content a TLA+ specification could add to; see DESIGN.md section 7",
@@ -65,6 +68,8 @@ m = {
    "add_only": True,
  },
  "engines": [
+   {"name": "oci", "path": "/verif/lib/oci.py", "serves_properties": ["C13"],
+    "kind_free_text": "TLC (tla/Gen_Oci) + replay on pkg/runtime-tools/generate (harness/ocidrv) + TLC trace validation (tla/Trace_Oci)"},
    {"name": "adjust", "path": "/verif/lib/adjust.py", "serves_properties": ["C01", "C02", "C03", "C04", "C05"],
     "kind_free_text": "TLC model checking + scenario emission (tla/Gen_Adjust), replay on the real code (harness/adjdrv), TLC trace validation (tla/Trace_Adjust)"},
  ],
